@@ -589,8 +589,9 @@ def handle_totals_multi(c):
             nr = len(col._rev[0]) if col._rev else 0
             info = 'bidirectional' if (nf and nr) else ('fwd-only' if nf else 'rev-only')
             nresp = sum(len(A) for A in c['blocks'])
-            if nf + nr > min(len(c['x']), nresp):
-                bad.append('colouring needs %d solves, uncoloured %d' % (nf + nr, min(len(c['x']), nresp)))
+            unc = {'fwd': len(c['x']), 'rev': nresp}.get(c.get('mode'), min(len(c['x']), nresp))
+            if nf + nr > unc:
+                bad.append('colouring needs %d solves, uncoloured %d' % (nf + nr, unc))
         for key in ju:
             if key not in jc or not np.array_equal(np.asarray(ju[key]), np.asarray(jc[key])):
                 bad.append('call %d: d%s/d%s coloured (%s, mode %s, direct=%s) %s, uncoloured %s' % (
